@@ -57,6 +57,16 @@ def h_code(hx, code):
     hx.prove(cw[:k] == m, "%s: encoder is systematic" % code)
     hx.prove(cw == bitarray(ref_encode(G, m.tolist())), "%s: generate(m) == m x ETSI generator matrix" % code)
     hx.prove(cls.check(cw.copy()), "%s: every encoder output passes check" % code)
+    # results are fresh objects: damaging a returned codeword in place must not change what the encoder returns next
+    first = cls.generate(m)
+    keep = list(first.tolist())
+    first[0] = 1 - first[0] if not hx.symbolic else NOT(first[0])
+    first[n - 1] = 1 - first[n - 1] if not hx.symbolic else NOT(first[n - 1])
+    again = cls.generate(m)
+    hx.prove(EQ(list(again.tolist()), keep), "%s: generate(m) is unaffected by in-place changes to a previously returned codeword" % code)
+    other = hx.ba(k, "m2")
+    cls.generate(other)
+    hx.prove(EQ(list(cls.generate(m).tolist()), keep), "%s: generate(m) is unaffected by encoding another message in between" % code)
     # exact codeword set among all 2^n words
     w = hx.ba(n, "w")
     member_ref = EQ(w.tolist(), ref_encode(G, w.tolist()[:k]))
